@@ -658,11 +658,12 @@ class Polygon(Shape2D):
         q_nonzero_broadcast = q[np.newaxis, ~zero_q, :]
         edges_cross_qs = np.cross(edges[:, np.newaxis, :], q_nonzero_broadcast)
         # Due to oddities of numpy broadcasting, many singleton dimensions can persist
-        # and must be squeezed out.
-        midpoints_dot_qs = np.inner(
-            midpoints[:, np.newaxis, :], q_nonzero_broadcast
-        ).squeeze()
-        edges_dot_qs = np.inner(edges[:, np.newaxis, :], q_nonzero_broadcast).squeeze()
+        # and must be removed explicitly (a blanket squeeze would also drop a
+        # length-one axis of wave vectors or edges).
+        midpoints_dot_qs = np.inner(midpoints[:, np.newaxis, :], q_nonzero_broadcast)[
+            :, 0, 0, :
+        ]
+        edges_dot_qs = np.inner(edges[:, np.newaxis, :], q_nonzero_broadcast)[:, 0, 0, :]
         f_ns = (
             np.dot(edges_cross_qs, self.normal)
             # Note that np.sinc(x) gives sin(pi*x)/(pi*x)
